@@ -1,6 +1,6 @@
 (* C05 — Model isolation: one computation at a time per model. *)
 Require Import NX.Base.Prelude NX.Base.ListX NX.Model.PQ NX.Model.Sim NX.Model.TaskSM NX.Model.TaskInv.
-Require Import NX.Proofs.SimBasic NX.Proofs.NetProofs NX.Proofs.TaskProofs.
+Require Import NX.Proofs.SimBasic NX.Proofs.NetProofs NX.Proofs.TaskProofs NX.Proofs.TaskMeaning.
 
 (* Executor level: a task's future is polled by at most one thread at a time
    whatever the interleaving of wakers, runners and cancellers (a second
@@ -8,17 +8,7 @@ Require Import NX.Proofs.SimBasic NX.Proofs.NetProofs NX.Proofs.TaskProofs.
 Theorem c05_one_poller :
   forall ops s, s = ts_run init_forget ops \/ s = ts_run init_spawn ops ->
     badrun s = 0 /\ badpoll s = 0 /\ queued s + active s <= 1.
-Proof.
-  intros ops s [->| ->].
-  - pose proof (ts_run_inv ops _ init_forget_inv) as H. unfold inv_b in H.
-    repeat match goal with H : _ && _ = true |- _ => apply andb_true_iff in H; destruct H end.
-    repeat match goal with H : Nat.eqb _ _ = true |- _ => apply Nat.eqb_eq in H | H : Nat.leb _ _ = true |- _ => apply Nat.leb_le in H end.
-    auto.
-  - pose proof (ts_run_inv ops _ init_spawn_inv) as H. unfold inv_b in H.
-    repeat match goal with H : _ && _ = true |- _ => apply andb_true_iff in H; destruct H end.
-    repeat match goal with H : Nat.eqb _ _ = true |- _ => apply Nat.eqb_eq in H | H : Nat.leb _ _ = true |- _ => apply Nat.leb_le in H end.
-    auto.
-Qed.
+Proof. exact one_poller. Qed.
 Print Assumptions c05_one_poller.
 
 (* Model level: while a model's task is inside its init or a handler -
